@@ -44,6 +44,7 @@ struct Spec {
 };
 
 const std::vector<Spec> &all_specs();
+long &mirror_compared();   // number of C-vs-C++ evaluator comparisons done by the mirror pass so far
 const Spec *find_spec(const std::string &name);
 
 // registered scalar parameter names and their current values for the selected solution (parsed from masa_display_param)
